@@ -225,7 +225,7 @@ func probe() {
 	reqa(oidcSpec("system:serviceaccount:a,evil.example.com:b", "istio-ca"), "", "-") // comma identity from a signed sub: refused
 	hx := `URI=spiffe://cluster.local/ns/b/sa/c;DNS=foo.example.com;Subject="CN=bar,O=x"`
 	for _, peer := range []string{"10.1.2.3:555", "11.1.2.3:555", "127.0.0.1:80"} {
-		reqa([]string{"xfcc", "grpc", wire.Enc("10.0.0.0/8"), wire.Enc(peer), wire.EncList([]string{hx}), parsedXFCC(hx)}, "", "-")
+		reqa([]string{"xfcc", "grpc", wire.Enc("10.0.0.0/8"), wire.Enc(peer), wire.EncList([]string{hx}), parsedXFCCAll([]string{hx})}, "", "-")
 	}
 	leaf := wire.Enc("san:" + wire.EncList([]string{"U:spiffe://cluster.local/ns/a/sa/b", "D:foo.example.com"}))
 	other := wire.Enc("san:" + wire.EncList([]string{"U:spiffe://cluster.local/ns/kube-system/sa/admin"}))
@@ -344,8 +344,11 @@ func probeAuthn() {
 	oidc("http", "cluster.local", "istio-ca", "bearer", "ok", e("system:serviceaccount:x"), "list", "istio-ca")
 	oidc("http", "cluster.local", "istio-ca", "istio", "ok", e("system:serviceaccount:ns1:sa1"), "list", "istio-ca")
 	oidc("grpc", "cluster.local", "istio-ca", "istio", "ok", e("system:serviceaccount:ns1:sa1"), "list", "istio-ca")
-	oidc("grpc", "cluster.local", "istio-ca", "two", "ok", e("system:serviceaccount:ns1:sa1"), "list", "istio-ca")
-	oidc("http", "cluster.local", "istio-ca", "two", "ok", e("system:serviceaccount:ns1:sa1"), "list", "istio-ca")
+	for _, form := range []string{"bb", "two", "two2"} {
+		// which presented token is validated: Basic + Bearer; an invalid Bearer token before / after the valid one
+		oidc("grpc", "cluster.local", "istio-ca", form, "ok", e("system:serviceaccount:ns1:sa1"), "list", "istio-ca")
+		oidc("http", "cluster.local", "istio-ca", form, "ok", e("system:serviceaccount:ns1:sa1"), "list", "istio-ca")
+	}
 	oidc("grpc", "cluster.local", "istio-ca", "bearer", "ok", e("system:serviceaccount:ns1:sa1"), "list", "x")
 	oidc("grpc", "cluster.local", "istio-ca", "bearer", "ok", e("system:serviceaccount:x"), "list", "x")
 	oidc("grpc", "cluster.local", "istio-ca", "bearer", "otherkey", e("system:serviceaccount:ns1:sa1"), "list", "istio-ca")
@@ -359,11 +362,14 @@ func probeAuthn() {
 	h := `URI=spiffe://cluster.local/ns/b/sa/c;DNS=foo.example.com;Subject="CN=bar,O=x"`
 	for _, tr := range []string{"grpc", "http"} {
 		for _, p := range []string{"10.1.2.3:555", "11.1.2.3:555", "127.0.0.1:80", "[::1]:80", "[::ffff:10.1.2.3]:1", "10.1.2.3", "[fe80::1%eth0]:1"} {
-			emit("authn", "xfcc", tr, e("10.0.0.0/8"), e(p), wire.EncList([]string{h}), parsedXFCC(h))
+			emit("authn", "xfcc", tr, e("10.0.0.0/8"), e(p), wire.EncList([]string{h}), parsedXFCCAll([]string{h}))
 		}
-		emit("authn", "xfcc", tr, e("10.0.0.0/8"), "nopeer", wire.EncList([]string{h}), parsedXFCC(h))
-		emit("authn", "xfcc", tr, e("10.0.0.0/8"), e("10.1.2.3:555"), "-", "err")
-		emit("authn", "xfcc", tr, e("10.0.0.0/8"), e("10.1.2.3:555"), e("garbage"), parsedXFCC("garbage"))
+		emit("authn", "xfcc", tr, e("10.0.0.0/8"), "nopeer", wire.EncList([]string{h}), parsedXFCCAll([]string{h}))
+		h2 := "URI=spiffe://cluster.local/ns/kube-system/sa/admin"
+		emit("authn", "xfcc", tr, e("10.0.0.0/8"), e("10.1.2.3:555"), wire.EncList([]string{h, h2}), parsedXFCCAll([]string{h, h2}))
+		emit("authn", "xfcc", tr, e("10.0.0.0/8"), e("10.1.2.3:555"), wire.EncList([]string{h2, h}), parsedXFCCAll([]string{h2, h}))
+		emit("authn", "xfcc", tr, e("10.0.0.0/8"), e("10.1.2.3:555"), "-", "-")
+		emit("authn", "xfcc", tr, e("10.0.0.0/8"), e("10.1.2.3:555"), e("garbage"), parsedXFCCAll([]string{"garbage"}))
 	}
 	// client certificate
 	emit("case", "2", "authn", "cert")
@@ -392,6 +398,10 @@ func probeAuthn() {
 	kube("grpc", "-", "nil", "remote1", "bearer", "tok-1", "istio-ca", good)
 	kube("grpc", "-", "nil", "-", "none", "tok-1", "istio-ca", good)
 	kube("grpc", "-", "nil", "-", "istio", "tok-1", "istio-ca", good)
+	for _, form := range []string{"bb", "two", "two2"} {
+		kube("grpc", "-", "nil", "-", form, "tok-1", "istio-ca", good)
+		kube("http", "-", "nil", "-", form, "tok-1", "istio-ca", good)
+	}
 	kube("http", "-", "nil", "-", "istio", "tok-1", "custom", good)
 	kube("http", "-", "remote1", "remote1,zzz", "bearer", "tok-1", "istio-ca", good)
 	kube("grpc", "-", "remote1", "remote1,zzz", "bearer", "tok-1", "istio-ca", good)
